@@ -40,17 +40,20 @@
 
 (define (merge! ls1 ls2 less . o)
   (let ((key (if (pair? o) (car o) (lambda (x) x))))
-    (define (lp prev ls1 ls2 a b less key)
+    ;; first? is true when ls1 is (a tail of) the original first list;
+    ;; on ties the element of the original first list goes first
+    (define (lp prev ls1 ls2 a b less key first?)
       (cond
-       ((less a b)
+       ((if first? (not (less b a)) (less a b))
         (if (null? (cdr ls1))
             (set-cdr! ls1 ls2)
-            (lp ls1 (cdr ls1) ls2 (key (car (cdr ls1))) b less key)))
+            (lp ls1 (cdr ls1) ls2 (key (car (cdr ls1))) b less key first?)))
        (else
         (set-cdr! prev ls2)
         (if (null? (cdr ls2))
             (set-cdr! ls2 ls1)
-            (lp ls2 (cdr ls2) ls1 (key (car (cdr ls2))) a less key)))))
+            (lp ls2 (cdr ls2) ls1 (key (car (cdr ls2))) a less key
+                (not first?))))))
     (cond
      ((null? ls1) ls2)
      ((null? ls2) ls1)
@@ -58,15 +61,15 @@
       (let ((a (key (car ls1)))
             (b (key (car ls2))))
         (cond
-         ((less a b)
+         ((not (less b a))
           (if (null? (cdr ls1))
               (set-cdr! ls1 ls2)
-              (lp ls1 (cdr ls1) ls2 (key (car (cdr ls1))) b less key))
+              (lp ls1 (cdr ls1) ls2 (key (car (cdr ls1))) b less key #t))
           ls1)
          (else
           (if (null? (cdr ls2))
               (set-cdr! ls2 ls1)
-              (lp ls2 (cdr ls2) ls1 (key (car (cdr ls2))) a less key))
+              (lp ls2 (cdr ls2) ls1 (key (car (cdr ls2))) a less key #f))
           ls2)))))))
 
 (define (merge ls1 ls2 less . o)
